@@ -45,9 +45,19 @@ def plan_events(nch: int, z0: int, z1: int, z2: int, indirect: bool, start: int,
     pre: 1 <= z0 <= 3 and 1 <= z1 <= 3 and 1 <= z2 <= 3
     pre: 0 <= start <= 3 and start < stop <= 4 and 1 <= step <= 3
     pre: m0 or (m1 and nch >= 2) or (m2 and nch >= 3)
+    pre: (nch >= 2 or (z1 == 1 and not m1)) and (nch >= 3 or (z2 == 1 and not m2))
     pre: PART < 0 or (nch - 1) * 8 + (4 if indirect else 0) + (2 if step > 1 else 0) + (1 if m0 else 0) == PART
     post: _
     """
+    # every selector is made concrete by branching (the path tree still has to exhaust all combinations), the plan then runs natively
+    nch, z0, z1, z2 = mark.pick(nch, 1, 3), mark.pick(z0, 1, 3), mark.pick(z1, 1, 3), mark.pick(z2, 1, 3)
+    start, stop, step = mark.pick(start, 0, 3), mark.pick(stop, 1, 4), mark.pick(step, 1, 3)
+    indirect, m0, m1, m2 = mark.pickb(indirect), mark.pickb(m0), mark.pickb(m1), mark.pickb(m2)
+    with mark.untraced():
+        return _plan_events(nch, z0, z1, z2, indirect, start, stop, step, m0, m1, m2)
+
+
+def _plan_events(nch, z0, z1, z2, indirect, start, stop, step, m0, m1, m2):
     sizes = [z0, z1, z2][:nch]
     mask = [m0, m1, m2][:nch]
     plan = Type01Plan.FrameSetPlan(_Dfsr(sizes, indirect))
@@ -471,3 +481,66 @@ def load_slices_q(f1: int, indirect: bool, tif: bool, start: int, stop: int, ste
 
 shim_structs(PhysRec)
 shim_structs(TifMarker)
+
+
+# ---------------------------------------------------------------------------------------------------- wide log pass: every channel subset of 12 channels
+
+WIDE = 12
+
+
+def _build_wide(indirect):
+    chs = [(b'DEPT', b'.1IN', 4, 1, 73)] + [(b'C%03d' % k, b'GAPI', 4, 1, 73) for k in range(1, WIDE)]
+    if indirect:
+        chs = chs[1:]
+    lrs = [L.file_head_tail(128), L.dfsr(chs, indirect)]
+    model = []
+    g = 0
+    for n in (2, 2):
+        frames = []
+        x0 = 1000 - 60 * g
+        for f in range(n):
+            row = [1000 - 60 * g] + [100 * k + g for k in range(1, WIDE)]
+            model.append(row)
+            frames.append(b''.join(L.i32(v) for v in (row[1:] if indirect else row)))
+            g += 1
+        lrs.append(L.data_record(frames, L.i32(x0) if indirect else None))
+    lrs.append(L.file_head_tail(129))
+    data, pos = L.physical(lrs, False, None)
+    return data, model
+
+
+def _load_wide(mask, indirect, step):
+    data, model = _build_wide(indirect)
+    f = File.FileRead(SymFile(data), 'id', False)
+    idx = FileIndexer.FileIndex(f)
+    lp = list(idx.genLogPasses())[0].logPass
+    nch = WIDE - 1 if indirect else WIDE
+    chans = [c for c in range(nch) if (mask >> c) & 1]
+    lp.setFrameSet(f, slice(0, 4, step), chans)
+    mark.hit()
+    fs = lp.frameSet
+    sel = list(range(0, 4, step))
+    if fs.numFrames != len(sel):
+        return False
+    # model columns: external channel c is model column c (+1 when X is implied); a direct X channel 0 is always loaded
+    cols = [c + 1 for c in chans] if indirect else sorted(set([0] + chans))
+    for i, g in enumerate(sel):
+        if [float(v) for v in fs.frame(i)] != [float(model[g][c]) for c in cols]:
+            return False
+        if fs.xAxisValue(i) != model[g][0]:
+            return False
+    return True
+
+
+def load_wide_subsets(mask: int, indirect: bool, step: int) -> bool:
+    """
+    pre: 1 <= mask < 4096 and 1 <= step <= 2
+    pre: not indirect or mask < 2048
+    pre: PART < 0 or (mask // 256) * 2 + (1 if indirect else 0) == PART
+    post: _
+    """
+    hi = mark.pick(mask // 256, 0, 15)
+    lo = mark.pick(mask % 256, 0, 255)
+    indirect, step = mark.pickb(indirect), mark.pick(step, 1, 2)
+    with mark.untraced():
+        return _load_wide(hi * 256 + lo, indirect, step)
